@@ -45,10 +45,13 @@ PROPS = {
     "C05": {
         "rule": "op sequences biased to readiness (nack delays, future next_run_at, expiry, batch sizes around the ready count, route/target filters); "
                 "count clause |returned| = min(batch, ready); sub-granularity tier moves the clock off the 10ms lattice and allows sqlite < 10ms lag; "
-                "non-trivial = a dequeue with batch != ready > 0 and >=2 distinct readiness reasons present",
+                "non-trivial = a dequeue with batch != ready > 0 and >=2 distinct readiness reasons present | long-history tier: 300-4200 messages pass through "
+                "(enqueue, lease, ack in 1-5 waves) while 1-50 stay leased and 0-100 arrive late; after release by nack / batch nack / expiry every "
+                "unsettled message must be offered again exactly once (reaches the memory backend's order-list compaction at 1024 slots)",
         "assumptions": [POSTGRES, SAMPLED, "'eventually offered' is checked at the generated dequeue instants only (bounded-delay form), not as liveness"],
         "parts": [{"engine": "qmodel", "test": "TestProp_C05_Store", "quick": 2500, "thorough": 300000},
-                  {"engine": "qmodel", "test": "TestProp_C05_SubGranularity", "quick": 1500, "thorough": 200000}],
+                  {"engine": "qmodel", "test": "TestProp_C05_SubGranularity", "quick": 1500, "thorough": 200000},
+                  {"engine": "qmodel", "test": "TestProp_C05_LongHistory", "quick": 120, "thorough": 6000, "shards": {"quick": 4}}],
     },
     "C12": {
         "rule": "store tier: queues pre-filled to max_depth(-1), single and batch enqueues (duplicates, batches larger than the remaining capacity, "
